@@ -38,9 +38,9 @@ theorem name_accept_iff (s : Name) : accepted (validateName s) = true ↔ NameOk
             · exact Or.inr (Or.inl h)
           · exact Or.inr (Or.inr h)
       · intro x hx
-        rw [List.getLast?_cons] at hx
+        rw [getLast?_cons_getLastD] at hx
         injection hx with hx
-        rw [← hx]; exact hlast.symm
+        rw [← hx, ← hlast]; exact hsep
       · intro hmem
         rw [← isKeyword_iff, hk] at hmem; cases hmem
     · intro h
@@ -56,8 +56,8 @@ theorem name_accept_iff (s : Name) : accepted (validateName s) = true ↔ NameOk
           · left; simp [isAlnum, h']
           · left; simp [isAlnum, h']
           · right; exact h'
-        · have := h.noTrail (cs.getLastD c) (by rw [List.getLast?_cons])
-          exact this.symm
+        · have := h.noTrail (cs.getLastD c) (getLast?_cons_getLastD c cs)
+          rw [this, hsep]
       · cases hk : isKeyword (normalize (c :: cs)) with
         | false => rfl
         | true => exact absurd ((isKeyword_iff _).1 hk) h.notKeyword
@@ -140,12 +140,12 @@ theorem no_placeholder_left {s : Name} (h : accepted (validateName s) = true) (p
   have hc := (accepted_names_consistent h pubkey).2.2.2.2.2.2.2.2.2
   intro x hx
   simp only [Generated.placeholderValues, List.mem_cons, List.not_mem_nil, or_false] at hx
-  rcases hx with rfl | rfl | rfl | rfl | rfl
-  · exact (hc _ (by simp)).1
-  · exact (hc _ (by simp)).1
-  · exact (hc _ (by simp)).1
-  · exact (hc _ (by simp)).1
-  · exact hpk
+  rcases hx with h1 | h1 | h1 | h1 | h1
+  · rw [h1]; exact (hc _ (by simp)).1
+  · rw [h1]; exact (hc _ (by simp)).1
+  · rw [h1]; exact (hc _ (by simp)).1
+  · rw [h1]; exact (hc _ (by simp)).1
+  · rw [h1]; exact hpk
 
 /-! ## scaffolding -/
 
@@ -198,7 +198,7 @@ example : accepted (validateName "counter--program".toList) = false := by decide
 example : accepted (validateName "counter_".toList) = false := by decide
 example : accepted (validateName "fn".toList) = false := by decide
 example : accepted (validateName "Counter".toList) = false := by decide
-example : validateArg " a-b2\t".toList = .ok "a-b2".toList := by decide
+example : validateArg " a-b2\t".toList = .ok "a-b2".toList := by rfl
 example : NameOk "a1-b".toList := (name_accept_iff _).1 (by decide)
 example : ¬ NameOk "a-".toList := fun h => by
   have := (name_accept_iff _).2 h; revert this; decide
